@@ -54,6 +54,20 @@ func pathAtoms(u rs.Universe) []atom {
 	return out
 }
 
+// bareAtoms: route paths declared without a leading slash ("{x}", "b/{x}") - legal, and joined to
+// the root path with exactly one slash like any other.
+func bareAtoms(roots, subs, methods []string) []atom {
+	var out []atom
+	for _, root := range roots {
+		for _, sub := range subs {
+			for _, m := range methods {
+				out = append(out, atom{root, rm.RouteDecl{Method: m, Sub: sub}})
+			}
+		}
+	}
+	return out
+}
+
 // tableGen enumerates tables by index so that work can be sharded.
 type tableGen struct {
 	N  int
@@ -77,6 +91,21 @@ func pairs(atoms []atom) tableGen {
 		j := i + 1 + k
 		return tableOf(atoms[i], atoms[j])
 	}}
+}
+
+// sameService: the tables of g in which some service has at least two routes (materialised).
+func sameService(g tableGen) tableGen {
+	var tabs []rm.Table
+	for i := 0; i < g.N; i++ {
+		t := g.At(i)
+		for _, s := range t.Svcs {
+			if len(s.Routes) >= 2 {
+				tabs = append(tabs, t)
+				break
+			}
+		}
+	}
+	return tableGen{len(tabs), func(i int) rm.Table { return tabs[i] }}
 }
 
 func triples(atoms []atom) tableGen {
@@ -371,6 +400,12 @@ func routingSweeps(r rm.Router, tier string, lite bool) []sweep {
 	}
 	if !lite {
 		out = append(out, reuseSweep(r))
+		// (B1, B2) route paths declared without a leading slash, alone and in pairs (also next to slashed twins)
+		ba := bareAtoms([]string{"/", "/a", "/a/"}, []string{"{x}", "b", "b/{x}", "{x}/b"}, []string{"GET", "POST"})
+		bu := rs.Universe{Segs: []string{"a", "b", "7"}, MaxPath: 3}
+		breqs := crossReqs(bu.Paths(), []string{"GET", "POST", "PUT"}, rs.PathSweepHeaders[:1], false)
+		out = append(out, sweep{"B1", r, singles(ba), breqs})
+		out = append(out, sweep{"B2", r, pairs(append(ba, bareAtoms([]string{"/a"}, []string{"/{x}", "/b"}, []string{"GET"})...)), breqs})
 	}
 	if only := os.Getenv("VERIF_ONLY_SWEEP"); only != "" {
 		var f []sweep
